@@ -9,7 +9,7 @@ use std::str::FromStr;
 
 pub fn lanes() -> Vec<Lane> {
     vec![
-        Lane { name: "sweep", count: |c| gen::sweep_count(23, if c.thorough() { 6 } else { 4 }), run: sweep },
+        Lane { name: "sweep", count: |c| gen::sweep_count(23, if c.thorough() { 6 } else { 5 }), run: sweep },
         Lane { name: "gen", count: |c| if c.thorough() { 300_000 } else { 15_000 }, run: gen_lane },
         Lane { name: "mutated", count: |c| if c.thorough() { 1_000_000 } else { 60_000 }, run: mutated_lane },
     ]
